@@ -276,6 +276,39 @@ fn typed<T: ByteValued>(cx: &mut Ctx, code: u64, off: usize, nn: usize, c: usize
     }
 }
 
+/// the slice over region bytes [off, off+a) reached by derivation route c (0 direct get_slice; 1 subslice of the
+/// whole region; 2 offset then subslice; 3 split_at then subslice; 4 get_ref::<[u8; a]>.to_slice(); 5
+/// get_array_ref::<u8>.to_slice(); 6 get_array_ref::<[u8; a]>(.., j+1).ref_at(j).to_slice()); routes 4 and 6 need
+/// 1 <= a <= 16 and fall back to route 1 otherwise.  None = the library answered Err on the way.
+fn derived_slice<'a>(region: &'a GuestRegionMmap<()>, size: usize, off: usize, a: usize, c: usize) -> Option<VolatileSlice<'a, ()>> {
+    let whole = || VolatileMemory::get_slice(&**region, 0, size).ok();
+    match c {
+        0 => VolatileMemory::get_slice(&**region, off, a).ok(),
+        2 => whole()?.offset(off).ok()?.subslice(0, a).ok(),
+        3 => whole()?.split_at(off).ok()?.1.subslice(0, a).ok(),
+        5 => Some(region.get_array_ref::<u8>(off, a).ok()?.to_slice()),
+        4 | 6 if (1..=16).contains(&a) => {
+            macro_rules! go3 {
+                ($($k:literal),*) => {
+                    match a {
+                        $($k => {
+                            if c == 4 {
+                                Some(region.get_ref::<[u8; $k]>(off).ok()?.to_slice())
+                            } else {
+                                let j = std::cmp::min(2, off / $k);
+                                Some(region.get_array_ref::<[u8; $k]>(off - j * $k, j + 1).ok()?.ref_at(j).to_slice())
+                            }
+                        })*
+                        _ => unreachable!(),
+                    }
+                };
+            }
+            go3!(1, 2, 3, 4, 5, 6, 7, 8, 9, 10, 11, 12, 13, 14, 15, 16)
+        }
+        _ => whole()?.subslice(off, a).ok(),
+    }
+}
+
 fn run_op(cx: &mut Ctx, op: &[u128]) -> Option<bool> {
     let (code, off, a, b, c) = (op[0] as u64, op[1] as usize, op[2] as usize, op[3] as usize, op[4] as usize);
     match code {
@@ -295,7 +328,10 @@ fn run_op(cx: &mut Ctx, op: &[u128]) -> Option<bool> {
             Some(r == exp && (r == 0 || buf[..r] == cx.shadow[off..off + r]))
         }
         2 => {
-            let s = VolatileMemory::get_slice(&*cx.region, off, a).ok()?;
+            // c = the derivation route to the slice designating region bytes [off, off+a): every route must carry
+            // the region's mapping handle along (on an on-demand region the guard of the derived slice maps the
+            // window; a route that loses the handle hands out a pointer into nothing)
+            let s = derived_slice(&cx.region, cx.size, off, a, c)?;
             if b != 0 {
                 let g = s.ptr_guard_mut();
                 let pat = cx.rng.bytes(a);
@@ -628,7 +664,7 @@ fn rand_op(rng: &mut Rng, size: u64, page: u64, allow_raw: bool) -> Tok {
     };
     match code {
         0 | 1 => op(code, off, len, 0, 0),
-        2 => op(2, off, len, rng.below(2), 0),
+        2 => op(2, off, len, rng.below(2), rng.below(7)),
         3 | 4 => op(code, off, t, 0, 0),
         5 | 6 => op(code, off, t, nn, i),
         7 | 8 => op(code, off, t, nn, k),
@@ -688,6 +724,10 @@ fn gen(rng: &mut Rng, tier: Tier, emit: &mut dyn FnMut(Vec<Tok>)) {
                     ops.push(op(13, off, len, 3, len / 3));
                     ops.push(op(2, off, len, 1, 0));
                     ops.push(op(2, off, len, 0, 0));
+                    // the same window through every derivation route
+                    for route in 1..7u64 {
+                        ops.push(op(2, off, len, route % 2, route));
+                    }
                 }
                 case(rkind, size, gbase, ops);
             }
